@@ -118,7 +118,12 @@ def model_flat_events(frames) -> list[str]:
 
 
 # ------------------------------------------------------------------ stream generation
-def rdf11_statements(r, g: genmod.Gen, n: int, arity: int) -> list:
+_XSD = "http://www.w3.org/2001/XMLSchema#"
+NONCANONICAL = [("008", _XSD + "integer"), ("+7", _XSD + "integer"), ("1.50", _XSD + "decimal"), ("1.0E0", _XSD + "double"),
+                ("1", _XSD + "boolean"), ("0042", _XSD + "nonNegativeInteger")]
+
+
+def rdf11_statements(r, g: genmod.Gen, n: int, arity: int, noncanon_p: float = 0.15) -> list:
     """RDF 1.1 statements (s IRI|BNode, p IRI, o any non-quoted, g IRI|BNode|default) with
     literals rdflib does not normalise away... except the known "01" case which is kept."""
     out, prev = [], None
@@ -137,6 +142,11 @@ def rdf11_statements(r, g: genmod.Gen, n: int, arity: int) -> list:
                 return t
 
     def obj():
+        if r.random() < noncanon_p:
+            # a typed literal whose lexical form is not the canonical one of its datatype: what the reader
+            # hands out must be the form that was sent
+            lex, dt = r.choice(NONCANONICAL)
+            return gs.Literal(lex, datatype=dt)
         t = g.term(0, True, quoted=False)
         return bn() if isinstance(t, gs.BlankNode) else iri() if isinstance(t, gs.IRI) else t
 
@@ -166,7 +176,7 @@ def rdf11_statements(r, g: genmod.Gen, n: int, arity: int) -> list:
 
 
 def ref_stream(ctx, rdf11: bool = False, phys: int | None = None, nd: bool | None = None, churn: bool | None = None,
-               edge: bool | None = None):
+               edge: bool | None = None, noncanon_p: float = 0.15):
     """One valid stream from the reference encoder -> dict(frames, events, bytes...) or None."""
     r = ctx.rng
     phys = phys or r.choice([1, 2, 3])
@@ -180,7 +190,7 @@ def ref_stream(ctx, rdf11: bool = False, phys: int | None = None, nd: bool | Non
         g = genmod.Gen(r, nprefix=r.randint(4, 7), nname=r.randint(2, 3), ndt=r.randint(1, 2))
     if rdf11:
         # BNODES with empty labels / empty IRIs are not RDF 1.1 material for rdflib
-        stmts = rdf11_statements(r, g, r.choice([6, 10, 15] if churn else [1, 2, 4, 8, 15]), ar)
+        stmts = rdf11_statements(r, g, r.choice([6, 10, 15] if churn else [1, 2, 4, 8, 15]), ar, noncanon_p)
     else:
         stmts = g.statements(r.choice([6, 10, 15] if churn else [1, 2, 4, 8, 15]), ar)
     need = genmod.table_need(stmts)
